@@ -213,6 +213,36 @@ Proof.
 Qed.
 Print Assumptions C09_refused_completes_once.
 
+(* the bound of the claim is pinned: at most 50 report parts (of any transaction) before the response.
+   The buffer length found in the source may be larger, not smaller (part of gen_ok). *)
+Lemma recent_cap_pinned : (pinned_recent_cap <= recent_cap)%nat.
+Proof. apply Nat.leb_le. vm_compute. reflexivity. Qed.
+
+Theorem C09_completes_once_within_50 : forall id es s0 rst nf f,
+  fresh id s0 ->
+  Merge [CResp id rst] (map CPart (nf ++ [f])) (filter (mentions id) es) ->
+  Forall (fun p => final (cp_st p) = false) nf -> final (cp_st f) = true ->
+  (parts_before id es <= 50)%nat ->
+  let s' := crun_gen s0 es in
+  aget id (c_pend s') = None /\
+  done_of id s' =
+    [if completing_gen rst
+     then mkCR rst rst true (own_parts id (before_resp id es))
+     else mkCR (cp_st f) rst false (nf ++ [f])].
+Proof.
+  intros id es s0 rst nf f Hfr Hm Hnf Hf Hc.
+  assert (Hc' : (parts_before id es <= recent_cap)%nat).
+  { pose proof recent_cap_pinned as H. unfold pinned_recent_cap in H. lia. }
+  destruct (C09_completes_once id es s0 rst nf f Hfr Hm Hnf Hf Hc') as (H1 & H2 & _). auto.
+Qed.
+Print Assumptions C09_completes_once_within_50.
+
+(* a consumer that is started again begins with an empty manager: every transaction id is new in it, so
+   the theorems above apply from [cinit] whatever happened before the restart *)
+Theorem C09_restart_is_fresh : forall id, fresh id cinit.
+Proof. intros id. repeat split. Qed.
+Print Assumptions C09_restart_is_fresh.
+
 (* ---------------------------------------------------------------- limits and the code as found *)
 Fixpoint foreign (n : nat) (tag : Z) : list cevent :=
   match n with O => [] | S k => CPart (mkCP 7 Fin tag) :: foreign k (tag + 1) end.
@@ -279,6 +309,18 @@ Proof.
   - generalize (S sco_queue_cap). induction n; simpl; repeat constructor; auto.
 Qed.
 Print Assumptions C09_lost_wait_refuted.
+
+(* why "a restarted consumer gets a new manager" is part of gen_ok: a manager that survives the restart
+   still buffers the parts of an old transaction 1 of another consumer; the device has rebooted, ids start
+   again, and the first call (answered Wait, nothing reported yet) completes at once with the old
+   transaction's final state and parts *)
+Theorem C09_stale_manager_refuted :
+  let old := [CPart (mkCP 1 Wait 0); CPart (mkCP 1 Start 1); CPart (mkCP 1 Fin 2)] in
+  let s0 := crun_gen cinit old in
+  ~ fresh 1 s0 /\
+  done_of 1 (crun_gen s0 [CResp 1 Wait]) = [mkCR Fin Wait false [mkCP 1 Wait 0; mkCP 1 Start 1; mkCP 1 Fin 2]].
+Proof. split; [intros (_ & H & _); vm_compute in H; discriminate H|vm_compute; reflexivity]. Qed.
+Print Assumptions C09_stale_manager_refuted.
 
 Example C09_nonvacuous :
   (* queued processing, raising handler, a second consumer's direct request in between *)
